@@ -55,6 +55,10 @@ func plantURL(r *rand.Rand, t *tokGen, where string) planted {
 	default: // trailing slash
 		p.URL = fmt.Sprintf("%s://%s/dir.d/%s/", scheme, host, tok)
 	}
+	// a fragment is not part of the path: whatever it holds (slashes, dots), the last path segment decides
+	if strings.Count(p.URL, "/") > 2 && r.Intn(5) == 0 {
+		p.URL += pick(r, []string{"#sec", "#/page/2", "#/release/v1.2", "#a.b", "#!/x/y.html"})
+	}
 	return p
 }
 
